@@ -130,7 +130,7 @@ class Render:
         return self.fresh("t")  # anything else in a target position is replaced by a plain name
 
     def params(self, node, d, fn):
-        out = {"p": [], "pd": [], "r": [], "k": [], "w": []}
+        out = {"o": [], "od": [], "p": [], "pd": [], "r": [], "k": [], "w": []}
         for p in node[2]:
             k, opt, ch = p
             opt = opt if isinstance(opt, str) else ""
@@ -147,14 +147,19 @@ class Render:
                 name = self.fresh("a")
                 if "d" in opt and ch:
                     inner = "[%s %s]" % (name, self.r(ch.pop(0), d, fn, "default"))
-                    group = "k" if "k" in opt else "pd"
+                    group = "k" if "k" in opt else "od" if "o" in opt else "pd"
                 else:
                     inner = name
-                    group = "k" if "k" in opt else "p"
+                    group = "k" if "k" in opt else "o" if "o" in opt else "p"
             if "a" in opt and ch:
                 inner = "(annotate %s %s)" % (inner, self.r(ch.pop(0), d and not PY314, fn, "annotation"))
             out[group].append(inner)
-        parts = out["p"] + out["pd"] + out["r"][:1]
+        # positional-only parameters (opt "o") go before a "/"; once one of them has a default, Python wants every later
+        # positional parameter to have one too, so plain parameters without a default then move in front of the "/" as well
+        if out["od"]:
+            parts = out["o"] + out["p"] + out["od"] + ["/"] + out["pd"] + out["r"][:1]
+        else:
+            parts = out["o"] + (["/"] if out["o"] else []) + out["p"] + out["pd"] + out["r"][:1]
         if out["k"]:
             if not out["r"]:
                 parts.append("*")
@@ -604,7 +609,7 @@ def label(node):
         cls = "maths" if opt in MATHS else "compare" if opt in COMPARE else "logic" if opt in LOGIC else "unary" if opt in UNARY else "op"
         return cls + ("1" if cls == "compare" and len(ch) == 1 else "")
     if k == "param":
-        return "param:" + "".join(sorted(set(str(opt)) & set("darwk")))
+        return "param:" + "".join(sorted(set(str(opt)) & set("darwko")))
     if k == "exc":
         return "exc:" + str(opt)
     return k
